@@ -228,7 +228,7 @@ def declared_table_schema(tbl) -> Sch:
     cols = []
     for ent in tbl["cols"]:
         name, typ = ent[0], ent[1]
-        cols.append((name, col(typ, bool(ent[2]) if len(ent) > 2 else False)))
+        cols.append((name, col(typ, bool(ent[2]) if len(ent) > 2 else False, bool(ent[3]) if len(ent) > 3 else False)))
     keys = [frozenset(k) for k in tbl.get("keys", [])]
     return Sch(cols, keys, True)
 
